@@ -107,6 +107,18 @@ fn seg_seg_dist(p1: &P, q1: &P, p2: &P, q2: &P) -> f64 {
 
 /// No two non-adjacent edges touch and no edge folds back onto its neighbour. `closed` sources
 /// need at least three edges.
+/// The closed polygon through `pts` (closing edge added) is simple
+pub fn is_simple_polygon2(pts: &[engeom::Point2]) -> bool {
+    let mut v: Vec<P> = pts.iter().map(|p| [p.x, p.y, 0.0]).collect();
+    if v.len() < 3 {
+        return false;
+    }
+    if v[0] != v[v.len() - 1] {
+        v.push(v[0]);
+    }
+    is_simple(&v, true, 1e-9)
+}
+
 fn is_simple(v: &[P], closed: bool, eps: f64) -> bool {
     let m = v.len() - 1;
     if closed && m < 3 {
